@@ -57,13 +57,15 @@ async def check_config(ctx, s, engine, req, faults, ref, cfg, sdl, cap, rng, arg
     async def run_once(choose):
         def make(sched):
             w = world_mod.World(s, req.wseed, faults, sched)
+            for k_, v_ in (getattr(req, "world_opts", None) or {}).items():
+                setattr(w, k_, v_)
             w.arg_faults = set(arg_faults)
             worlds.append(w)
             root = w.root_object(root_t) if req.use_root else None
             return [engine.execute(req.text, operation_name=req.op_name, context={"world": w},
                                    variables=req.variables, initial_value=root)]
         with S.WarningTrap() as trap:
-            results, sched, stray, stuck = await S.run_scheduled(make, choose, step_bound=5000)
+            results, sched, stray, stuck = await S.run_scheduled(make, choose, step_bound=5000 if not getattr(req, "world_opts", None) else 200000)
         return (results[0], stray, stuck, trap), sched
 
     runs, exhaustive = await S.collect_schedules(run_once, cap, rng, sample_tail=2)
@@ -112,6 +114,29 @@ async def check_config(ctx, s, engine, req, faults, ref, cfg, sdl, cap, rng, arg
                    "distinct_release_orders": len(orders), "one_order": list(next(iter(orders)))[:12]}, limit=3)
 
 
+def wide_shape(s, req):
+    """A root field whose type is a (single-level) list of composites and whose direct sub-selection has a list-typed field."""
+    root = s.types[s.roots()[req.op.kind]]
+    for sel in req.op.selset:
+        if sel.kind != "field" or sel.name not in root.fields or not sel.selset:
+            continue
+        t = root.fields[sel.name].type
+        t = t[1] if t[0] == "NN" else t
+        if t[0] != "L":
+            continue
+        it = t[1][1] if t[1][0] == "NN" else t[1]
+        if it[0] != "N" or s.kind(it[1]) != "OBJECT":
+            continue
+        inner = s.types[it[1]]
+        for sub in sel.selset:
+            if sub.kind == "field" and sub.name in inner.fields:
+                st_ = inner.fields[sub.name].type
+                st_ = st_[1] if st_[0] == "NN" else st_
+                if st_[0] == "L":
+                    return True
+    return False
+
+
 async def run_case(ctx, rng, index):
     so = smodel.GenOpts(n_objects=(2, 3), n_interfaces=(0, 1), n_unions=(0, 1), fields=(2, 3), p_gate=0.25,
                         p_mutation=0.3, p_nonnull=rng.choice([0.2, 0.5]))
@@ -136,6 +161,19 @@ async def run_case(ctx, rng, index):
             else:
                 req = X.gen_request(rng, s, docgen.DocOpts(max_fields=rng.choice([3, 5, 7]), max_depth=3,
                                                            op_kinds=("query", "mutation")))
+            wide = r == 1 and index % 4 == 0
+            if wide:
+                # a document in which a root-level list of objects selects a list-typed field below it
+                for _try in range(30):
+                    if wide_shape(s, req):
+                        break
+                    req = X.gen_request(rng, s, docgen.DocOpts(max_fields=rng.choice([5, 7, 9]), max_depth=3, op_kinds=("query",)))
+                else:
+                    wide = False
+            if wide:
+                # size boundary: root-level lists of 128 / 130 objects (each with its own sub-selection, nested lists
+                # included); few schedules, the point is termination and equality with the reference
+                req.world_opts = {"p_long_obj": 1.0, "long_obj_sizes": (128, 130)}
             w0, _ = X.make_worlds(s, req)
             try:
                 ref0 = X.run_reference(s, req, w0)
@@ -144,6 +182,9 @@ async def run_case(ctx, rng, index):
                 continue
             if ref0.request_error:
                 continue
+            if wide:
+                ctx.stats.inc("wide_requests")
+                ctx.stats.inc("wide_request_instances", len(w0.insts))
             faults = {}
             if rng.random() < 0.5 and w0.insts:
                 for key in rng.sample(sorted(w0.insts), min(len(w0.insts), rng.randint(1, 2))):
@@ -158,9 +199,9 @@ async def run_case(ctx, rng, index):
             w1, _ = X.make_worlds(s, req, faults)
             w1.arg_faults = arg_faults
             ref = X.run_reference(s, req, w1)
-            cfgs = CONFIGS if ctx.tier == "thorough" or r == 0 else rng.sample(CONFIGS, 4)
+            cfgs = CONFIGS if (ctx.tier == "thorough" or r == 0) and not wide else rng.sample(CONFIGS, 4)
             for cfg in cfgs:
-                await check_config(ctx, s, bundles[cfg].engine, req, faults, ref, cfg, sdl, cap, rng, arg_faults)
+                await check_config(ctx, s, bundles[cfg].engine, req, faults, ref, cfg, sdl, cap if not wide else 3, rng, arg_faults)
     finally:
         for b in bundles.values():
             b.dispose()
